@@ -519,3 +519,84 @@ def unroll_table_loops(tree: ast.Module) -> int:
         if isinstance(fn, (ast.FunctionDef, ast.AsyncFunctionDef)):
             total += _unroll_in_list(fn.body)
     return total
+
+
+# --------------------------------------------------------------------------
+# search idioms:  x = next((E for T in L if C), None); if x is not None: <exit>   ->   for T in L: if C: x = E; <exit>
+#                 if any(C for T in L): <exit>                                    ->   for T in L: if C: <exit>
+# --------------------------------------------------------------------------
+
+def _always_exits(stmts: List[ast.stmt]) -> bool:
+    if not stmts:
+        return False
+    last = stmts[-1]
+    if isinstance(last, (ast.Raise, ast.Return, ast.Continue, ast.Break)):
+        return True
+    if isinstance(last, ast.If) and last.orelse:
+        return _always_exits(last.body) and _always_exits(last.orelse)
+    return False
+
+
+def _search_in_list(stmts: List[ast.stmt]) -> int:
+    n = 0
+    i = 0
+    while i < len(stmts):
+        s = stmts[i]
+        if isinstance(s, (ast.FunctionDef, ast.AsyncFunctionDef, ast.ClassDef)):
+            i += 1
+            continue
+        for fld in ("body", "orelse", "finalbody"):
+            sub = getattr(s, fld, None)
+            if isinstance(sub, list) and sub and isinstance(sub[0], ast.stmt):
+                n += _search_in_list(sub)
+        if isinstance(s, ast.Try):
+            for h in s.handlers:
+                n += _search_in_list(h.body)
+        nxt = stmts[i + 1] if i + 1 < len(stmts) else None
+        # x = next((E for T in L if C), None) ; if x is not None / if x: <exit>
+        if (isinstance(s, ast.Assign) and len(s.targets) == 1 and isinstance(s.targets[0], ast.Name) and isinstance(s.value, ast.Call) and isinstance(s.value.func, ast.Name)
+                and s.value.func.id == "next" and len(s.value.args) == 2 and isinstance(s.value.args[0], ast.GeneratorExp) and len(s.value.args[0].generators) == 1
+                and isinstance(s.value.args[1], ast.Constant) and s.value.args[1].value is None and isinstance(nxt, ast.If) and not nxt.orelse and _always_exits(nxt.body)
+                and not any(isinstance(x, (ast.Continue, ast.Break)) for st in nxt.body for x in ast.walk(st))):
+            x = s.targets[0].id
+            t = nxt.test
+            is_found = (isinstance(t, ast.Name) and t.id == x) or (isinstance(t, ast.Compare) and len(t.ops) == 1 and isinstance(t.ops[0], ast.IsNot) and isinstance(t.left, ast.Name) and t.left.id == x
+                                                                      and isinstance(t.comparators[0], ast.Constant) and t.comparators[0].value is None)
+            if is_found:
+                gen = s.value.args[0].generators[0]
+                inner: List[ast.stmt] = [ast.Assign(targets=[ast.Name(id=x, ctx=ast.Store())], value=s.value.args[0].elt, type_comment=None)] + list(nxt.body)
+                for cond in reversed(gen.ifs):
+                    inner = [ast.If(test=cond, body=inner, orelse=[])]
+                loop = ast.For(target=gen.target, iter=gen.iter, body=inner, orelse=[], type_comment=None)
+                ast.copy_location(loop, s)
+                ast.fix_missing_locations(loop)
+                stmts[i:i + 2] = [loop]
+                n += 1
+                continue
+        # if any(C for T in L): <exit>      /     if not all(C for T in L): <exit>
+        if isinstance(s, ast.If) and not s.orelse and _always_exits(s.body) and not any(isinstance(x, (ast.Continue, ast.Break)) for st in s.body for x in ast.walk(st)):
+            t, neg = s.test, False
+            if isinstance(t, ast.UnaryOp) and isinstance(t.op, ast.Not):
+                t, neg = t.operand, True
+            if (isinstance(t, ast.Call) and isinstance(t.func, ast.Name) and t.func.id in ("any", "all") and len(t.args) == 1 and isinstance(t.args[0], ast.GeneratorExp)
+                    and len(t.args[0].generators) == 1 and ((t.func.id == "any") != neg)):
+                gen = t.args[0].generators[0]
+                cond = t.args[0].elt if t.func.id == "any" else ast.UnaryOp(op=ast.Not(), operand=t.args[0].elt)
+                inner = [ast.If(test=cond, body=list(s.body), orelse=[])]
+                for c2 in reversed(gen.ifs):
+                    inner = [ast.If(test=c2, body=inner, orelse=[])]
+                loop = ast.For(target=gen.target, iter=gen.iter, body=inner, orelse=[], type_comment=None)
+                ast.copy_location(loop, s)
+                ast.fix_missing_locations(loop)
+                stmts[i] = loop
+                n += 1
+        i += 1
+    return n
+
+
+def expand_search_idioms(tree: ast.Module) -> int:
+    total = 0
+    for fn in ast.walk(tree):
+        if isinstance(fn, (ast.FunctionDef, ast.AsyncFunctionDef)):
+            total += _search_in_list(fn.body)
+    return total
